@@ -95,7 +95,13 @@ def cases(draw):
     for _ in range(3):
         vals = cs.SPECIAL if draw(st.booleans()) else cs.SEEDVALS
         probes.append([draw(st.sampled_from(vals)) for _ in range(d)])
-    return {"kind": "crystal", "recipe": {"name": rec["name"], "lattice": rec["lattice"], "basis": rec["basis"]}, "probes": probes}
+    case = {"kind": "crystal", "recipe": {"name": rec["name"], "lattice": rec["lattice"], "basis": rec["basis"]}, "probes": probes}
+    if draw(st.floats(0, 1)) < 0.2:
+        # the same crystal described with positions carrying noise ~1e-6 and analysed with threshold 1e-4 (the documented
+        # purpose of the threshold argument); only the symmetry-preservation clause of addbasis is checked on it
+        case["kind"] = "noisy"
+        case["noise"] = [[[draw(st.sampled_from([-1e-6, -3e-7, 0., 4e-7, 1e-6])) for _ in range(d)] for _ in sp] for sp in rec["basis"]]
+    return case
 
 
 # ------------------------------------------------------------------------------------------------
@@ -334,10 +340,52 @@ def check_crystal(case, exclude):
     return info
 
 
+def check_noisy(case):
+    from onsager import crystal
+    rec = case["recipe"]
+    d = len(rec["lattice"])
+    try:
+        exact = cs.build(rec)
+        basis = [[np.array(u) + np.array(n) for u, n in zip(sp, ns)] for sp, ns in zip(rec["basis"], case["noise"])]
+        noisy = crystal.Crystal(np.array(rec["lattice"]), basis, threshold=1e-4)
+    except ArithmeticError as e:
+        if "Reduction did not produce" in str(e):
+            return {"classes": ["reduce_arith_error(C19 domain)"], "nontrivial": False}
+        raise
+    classes = cs.describe(noisy) + ["noisy_threshold"]
+    if len(noisy.G) != len(exact.G) or noisy.N != exact.N:
+        # whether 1e-4 recovers the exact symmetry is not part of C20's statement; only counted
+        classes.append("noisy_group_differs_from_exact")
+    L = np.array(noisy.lattice)
+    nprobe = 0
+    for u in case["probes"]:
+        u = np.array(u, dtype=float)
+        if min(np.linalg.norm(L @ geom.wrap(u - np.array(v))) for sp in noisy.basis for v in sp) < 0.1 * np.linalg.norm(L, axis=0).min():
+            continue
+        orb = noisy.Wyckoffpos(u)
+        try:
+            new = noisy.addbasis(orb)
+        except ArithmeticError as e:
+            if "Reduction did not produce" in str(e):
+                continue
+            raise
+        nprobe += 1
+        require(len(new.G) == len(noisy.G), lambda: "addbasis(Wyckoffpos(%s)) on a crystal built with threshold=1e-4 changes the group order from %d to %d"
+                % (np.round(u, 4).tolist(), len(noisy.G), len(new.G)))
+        old_rots = set(tuple(np.asarray(g.rot).flatten()) for g in noisy.G)
+        require(old_rots == set(tuple(np.asarray(g.rot).flatten()) for g in new.G), "addbasis on a noisy crystal changes the set of rotations")
+        require(len(new.Wyckoff) == len(noisy.Wyckoff) + 1, lambda: "the added orbit does not form exactly one new Wyckoff set on a crystal built with threshold=1e-4 (%d -> %d sets)"
+                % (len(noisy.Wyckoff), len(new.Wyckoff)))
+    return {"nontrivial": bool(nprobe and len(noisy.G) > 1), "classes": classes + ["noisy_probes%d" % nprobe],
+            "sample": {"kind": "noisy", "crystal": rec["name"], "basis": rec["basis"], "order": len(noisy.G)}}
+
+
 def check(case, exclude=None):
     ex = (EXCLUDE_2D_C2_TENSOR, EXCLUDE_S4_VECTOR) if exclude is None else (exclude, exclude)
     if case.get("kind") == "subgroup":
         return check_subgroup(case, ex)
+    if case.get("kind") == "noisy":
+        return check_noisy(case)
     return check_crystal(case, ex)
 
 
